@@ -1,7 +1,7 @@
 // C01: generated basis functions are exactly the Cox-de Boor B-splines.
 #include "lib.h"
 using namespace vf;
-using S = QP;
+using S = vf::DefaultScalar;
 
 struct Knots {
   std::vector<mpq_class> t, grid;
